@@ -30,6 +30,8 @@ class LssSlave:
         self.stored = 0
         self.activated = []
         self.services_seen = set()
+        self.identify = {}                  # command specifier 0x46..0x4B -> number received (identify remote slave)
+        self.identify_answers = 0
 
     def _v(self, mech, msg):
         self.violations.append((mech, msg))
@@ -69,6 +71,20 @@ class LssSlave:
                 self.state = CONFIGURATION
                 return [bytes([0x44]) + bytes(7)]
             return []
+        if 0x46 <= cs <= 0x4B:
+            # identify remote slave: vendor id, product code, revision low / high, serial low / high - in this order of
+            # command specifiers; the answer (0x4F) follows the last one when the identity lies inside
+            self.identify[cs] = struct.unpack_from("<I", data, 1)[0]
+            if cs == 0x4B:
+                req, self.identify_last = self.identify, dict(self.identify)
+                self.identify = {}
+                if (len(req) == 6 and req[0x46] == self.identity[0] and req[0x47] == self.identity[1]
+                        and req[0x48] <= self.identity[2] <= req[0x49] and req[0x4A] <= self.identity[3] <= req[0x4B]):
+                    self.identify_answers += 1
+                    return [bytes([0x4F]) + bytes(7)]
+            return []
+        if cs == 0x4C:
+            return [bytes([0x50]) + bytes(7)] if self.node_id == 0xFF else []
         if cs == 0x51:
             idnumber, bitcheck, sub, nxt = struct.unpack_from("<IBBB", data, 1)
             if self.state != WAITING or self.node_id != 0xFF:
